@@ -184,11 +184,11 @@ PROPS = {
             {'src': 'C17.cpp', 'configs': ['SE2d', 'SO3d', 'SE3d', 'R3d', 'SE2f', 'SO3f'], 'tag': '-asan',
              'defs': ['-fsanitize=address,undefined', '-fno-sanitize-recover=undefined', '-fno-omit-frame-pointer'],
              'env': {'ASAN_OPTIONS': 'hard_rss_limit_mb=4000:detect_leaks=0:allocator_may_return_null=1'},
-             'cases': {'quick': 160, 'thorough': 6000}, 'shards': {'quick': 2, 'thorough': 4}, 'timeout': {'quick': 900, 'thorough': 7200}, 'case_scale': {'SE3d': 0.5}},
+             'cases': {'quick': 160, 'thorough': 6000}, 'shards': {'quick': 2, 'thorough': 4}, 'timeout': {'quick': 900, 'thorough': 7200}, 'case_scale': {'SE3d': 0.5}, 'shrink_budget': 120},
             {'src': 'C17.cpp', 'configs': ['SE2d', 'SE3d'], 'tag': '-asan-ndebug',
              'defs': ['-DNDEBUG', '-fsanitize=address,undefined', '-fno-sanitize-recover=undefined', '-fno-omit-frame-pointer'],
              'env': {'ASAN_OPTIONS': 'hard_rss_limit_mb=4000:detect_leaks=0:allocator_may_return_null=1'},
-             'cases': {'quick': 120, 'thorough': 3000}, 'shards': {'quick': 2, 'thorough': 2}, 'timeout': {'quick': 900, 'thorough': 7200}, 'case_scale': {'SE3d': 0.5}},
+             'cases': {'quick': 120, 'thorough': 3000}, 'shards': {'quick': 2, 'thorough': 2}, 'timeout': {'quick': 900, 'thorough': 7200}, 'case_scale': {'SE3d': 0.5}, 'shrink_budget': 120},
             {'kind': 'fuzz', 'tiers': ['thorough'], 'src': 'C17.cpp', 'configs': ['SE2d', 'SO3d', 'SE3d', 'R3d'], 'rc_tag': '-asanrc',
              'seconds': {'quick': 20, 'thorough': 600}, 'jobs': 4, 'max_len': 4096},
         ],
